@@ -1,0 +1,83 @@
+//go:build verif
+
+// Contracts for hierarchicalCASBlobAccess (properties C10, C01, C04).
+// Comment-only file.
+package local
+
+//@ pure hInv(ba) = ba.lock != nil && guard(ba.keyLocationMap) == ba.lock && guard(ba.locationBlobMap) == ba.lock
+//@     && ba.keyLocationMap != nil && ba.locationBlobMap != nil
+//@ pure hUnlocked(ba) = held(ba.lock) == 0 && held(ba.refreshLock) == 0
+
+// wroteOnly(klm, k1, k2): every index entry stored since the function was
+// entered is stored under key k1 or k2.
+//@ pure wroteOnly(klm, k1, k2) = wcount(klm) >= old(wcount(klm))
+//@     && (forall n :: old(wcount(klm)) <= n && n < wcount(klm) ==> wkey(klm, n) == k1 || wkey(klm, n) == k2)
+//@     && (forall n :: n < old(wcount(klm)) ==> wkey(klm, n) == old(wkey(klm, n)))
+// wroteNothing(klm)
+//@ pure wroteNothing(klm) = wcount(klm) == old(wcount(klm)) && (forall n :: wkey(klm, n) == old(wkey(klm, n)))
+
+// canonK(d): the key shared by all instance names; lookK(d): the key of
+// exactly d's instance name. Both are functions of the digest alone.
+//@ ufunc canonK(str) intarr
+//@ ufunc lookK(str) intarr
+//@ func getCanonicalKey
+//@   opt deterministic canonK
+//@ func getMostSpecificLookupKey
+//@   opt deterministic lookK
+
+//@ func (*hierarchicalCASBlobAccess).getLeastSpecificLookupEntry
+//@   requires hInv(ba) && held(ba.lock) >= 1
+//@   modifies nothing
+//@   ensures [found-is-listed] err == nil ==> (exists j :: 0 <= j && j < len(lookupKeys) && result0 == lookupKeys[j])
+//@   ensures [location] err == nil ==> result1.BlockIndex >= 0 && result1.OffsetBytes >= 0 && result1.SizeBytes >= 0
+//@         && sub(result1.BlockIndex, result1.OffsetBytes, result1.SizeBytes)
+//@   ensures [no-write] wroteNothing(ba.keyLocationMap)
+//@   loop 0 invariant -1 <= rangeindex
+
+// Copies the canonical entry to the lookup key that was found: the only key
+// written is that lookup key (no widening, C10).
+//@ func (*hierarchicalCASBlobAccess).syncFromCanonicalEntry
+//@   requires hInv(ba) && held(ba.lock) == 2
+//@   modifies wcount(ba.keyLocationMap), wkey(ba.keyLocationMap)
+//@   ensures [only-lookup-key] wroteOnly(ba.keyLocationMap, lookupKey, lookupKey)
+//@   ensures [getter] err == nil ==> result0 != nil && gmap(result0) == ba.locationBlobMap && gepoch(result0) == epoch(ba.locationBlobMap)
+
+//@ func (*hierarchicalCASBlobAccess).finalizePut
+//@   requires hInv(ba) && held(ba.lock) == 2 && putFinalizer != nil && pmap(putFinalizer) == ba.locationBlobMap
+//@   modifies committed, epoch(ba.locationBlobMap), wcount(ba.keyLocationMap), wkey(ba.keyLocationMap)
+//@   ensures forall b, o, s :: old(committed(b, o, s)) ==> committed(b, o, s)
+//@   ensures [only-these-keys] wroteOnly(ba.keyLocationMap, canonicalKey, lookupKey)
+//@   ensures [content-first] wcount(ba.keyLocationMap) > old(wcount(ba.keyLocationMap)) ==> drained(pbuf(putFinalizer)) == 1
+
+// Get: whatever it writes goes to the canonical key of the digest or to one of
+// the lookup keys of the requested name and its ancestors (those it was found
+// under); nothing is written for other names.
+//@ func (*hierarchicalCASBlobAccess).Get
+//@   requires hInv(ba) && hUnlocked(ba)
+//@   ensures result != nil
+//@   ensures [no-widening] wcount(ba.keyLocationMap) >= old(wcount(ba.keyLocationMap))
+//@     && (forall n :: old(wcount(ba.keyLocationMap)) <= n && n < wcount(ba.keyLocationMap) ==>
+//@            (exists j :: 0 <= j && j < len(lookupKeys) && wkey(ba.keyLocationMap, n) == lookupKeys[j]))
+
+//@ func (*hierarchicalCASBlobAccess).Get$1
+//@   requires hInv(ba) && hUnlocked(ba) && putWriter != nil && b2 != nil && bsize(b2) == psize(putWriter)
+//@         && pmap(putWriter) == ba.locationBlobMap
+//@   ensures [only-these-keys] wroteOnly(ba.keyLocationMap, canonicalKey, lookupKey)
+
+// Put: entries are created only for the uploader's own name (its most specific
+// lookup key) and the canonical key, and only after the complete, valid
+// content has been received from the uploader.
+//@ func (*hierarchicalCASBlobAccess).Put
+//@   requires hInv(ba) && hUnlocked(ba) && b != nil
+//@   ensures [only-own-keys] wroteOnly(ba.keyLocationMap, canonK(blobDigest), lookK(blobDigest))
+//@   ensures [content-first] wcount(ba.keyLocationMap) > old(wcount(ba.keyLocationMap)) ==> drained(b) == 1
+
+//@ func (*hierarchicalCASBlobAccess).FindMissing
+//@   requires hInv(ba) && hUnlocked(ba)
+//@   loop 0 invariant -1 <= rangeindex && rangeindex < len(digests.digests) && len(allLookupKeys) == rangeindex + 1 && hUnlocked(ba)
+//@   loop 1 invariant held(ba.lock) == 1 && held(ba.refreshLock) == 0 && len(allLookupKeys) == len(digests.digests)
+//@   loop 1 invariant -1 <= rangeindex && rangeindex < len(digests.digests)
+//@   loop 1 invariant forall x :: x != ba.lock ==> held(x) == old(held(x))
+//@   loop 2 invariant -1 <= rangeindex && rangeindex < len(blobsToRefresh) && len(canonicalKeys) == rangeindex + 1 && hUnlocked(ba)
+//@   loop 3 invariant held(ba.lock) == 2 && held(ba.refreshLock) == 2 && -1 <= rangeindex && len(canonicalKeys) == len(blobsToRefresh)
+//@   loop 3 invariant forall x :: x != ba.lock && x != addr(ba.refreshLock) ==> held(x) == old(held(x))
